@@ -48,7 +48,8 @@ NameAtom == Atom("name", 0)       \* its length never matters: it is only ever h
 (* ---- SymmetricState (5.2) -------------------------------------------- *)
 (* ss = [h, ck, hk, k, n] : k/n are the handshake CipherState             *)
 InitializeSymmetric(pp) ==
-  LET h0 == IF pp.initpad THEN Pad(NameAtom) ELSE Hash(<<NameAtom>>)
+  LET nm == IF "altname" \in DOMAIN pp THEN Atom("name2", 0) ELSE NameAtom     \* C08: the peer spells the name differently
+      h0 == IF pp.initpad THEN Pad(nm) ELSE Hash(<<nm>>)
   IN [h |-> h0, ck |-> h0, hk |-> FALSE, k |-> None, n |-> NZero]
 
 MixHash(ss, d) == [ss EXCEPT !.h = Hash(<<ss.h, d>>)]
